@@ -5,6 +5,7 @@ import (
 	"fmt"
 	"math/rand"
 	"net/http/httptest"
+	"net/url"
 	"os"
 	"path/filepath"
 	"strings"
@@ -114,6 +115,15 @@ func (l *liveServer) scenario(w *tr.W, st *stats, cls, cfg, mpd string, t1, t2 i
 	if i := strings.IndexByte(pl.Text, '?'); i >= 0 {
 		q = pl.Text[i:]
 	}
+	// does the advertised location name the MPD's own publishTime? (observation used to classify failures)
+	locPT := false
+	if vals, err := url.ParseQuery(strings.TrimPrefix(q, "?")); err == nil {
+		locPT = vals.Get("publishTime") == oldT.Attrs["publishTime"]
+	}
+	p.extra["locPT"] = locPT
+	if !locPT {
+		st.locNotPT++
+	}
 	cb, bb := l.get(mpdURL + q)
 	if baseT, err := parseXML(bb); cb != 200 || err != nil || !baseT.equal(oldT) {
 		p.extra["baseDiffers"] = true
@@ -158,8 +168,12 @@ func runLive(w *tr.W, st *stats, rng *rand.Rand, perCfg int) error {
 					cfgs = append(cfgs, fmt.Sprintf("patch_%d/%s/%s", ttl, tl, a.periods))
 				}
 			}
-			if ttl == 60 && a.periods != "" {
-				cfgs = append(cfgs, fmt.Sprintf("patch_%d/%s", ttl, a.periods), fmt.Sprintf("patch_%d/%s/continuous_1/segtimeline_1", ttl, a.periods))
+			if a.periods != "" {
+				// multi-period with plain $Number$ SegmentTemplate: publishTime is the start of the last Period
+				cfgs = append(cfgs, fmt.Sprintf("patch_%d/%s", ttl, a.periods))
+				if ttl == 60 {
+					cfgs = append(cfgs, fmt.Sprintf("patch_%d/%s/continuous_1/segtimeline_1", ttl, a.periods))
+				}
 			}
 			if ttl == 60 && ai == 0 {
 				cfgs = append(cfgs, "patch_60/segtimeline_1/tsbd_6", "patch_60/segtimeline_1/timesubsstpp_en,sv", "patch_60/segtimeline_1/ltgt_3000/chunkdur_0.5",
